@@ -21,7 +21,10 @@ a *blocking* operation is an `acquire` step that is enabled only when `Data` is 
 already or the job has sent. `Run` is the set of reachable (control state, log) pairs: all
 interleavings of caller steps and job steps. Visible events (`AEv`): `call op`, `ret op v`
 on the caller, F/D events of ordinary systems (`sys`, tagged with thread and dispatch
-number) and of thread-local systems (`tl`).
+number) and of thread-local systems (`tl`), and `quiet`: the environment, between two
+operations and without calling the dispatcher, has seen the systems' own completion signal
+(label `observe`; it leaves the control state alone — a job that finishes unobserved keeps
+its message in the mailbox, and whichever operation comes next, blocking or not, finds it).
 
 Not modelled: a panic inside the job (rayon's `spawn` aborts the process; then `recv`
 would report "Sender dropped"), `Option::unwrap` of the pool (always `Some` after
@@ -32,9 +35,10 @@ Core Lean only (linked into the driver).
 namespace Shred
 namespace Async
 
-/-- the public operations of `AsyncDispatcher` (`res`/`mut_res` are deprecated aliases of
-`world`/`world_mut`) -/
-inductive AOp | dispatch | wait | waitWithoutTl | running | world | worldMut | setup
+/-- the public operations of `AsyncDispatcher` (l.41-137). `res` (l.111-113, `self.world()`) and
+`mut_res` (l.128-130, `&mut self.data.inner().world`) are the deprecated aliases of `world` /
+`world_mut`: like every accessor they are one `Data::inner()` followed by the return. -/
+inductive AOp | dispatch | wait | waitWithoutTl | running | world | worldMut | setup | res | mutRes
 deriving DecidableEq, Repr
 
 /-- `c` = the thread that calls the dispatcher's methods, `w` = a pool thread -/
@@ -49,6 +53,10 @@ inductive AEv
   | sys (th : Th) (d : Nat) (e : Ev Nat)
   /-- F/D of a thread-local system -/
   | tl (th : Th) (e : Ev Nat)
+  /-- an observation made by the environment between two operations, without calling any
+  method of the dispatcher: every system that has been started has finished (the systems' own
+  completion signal: the test harness counts the `run`s that have returned) -/
+  | quiet
 deriving DecidableEq, Repr
 
 /-- what a dispatcher built by `build_async` holds: the task of its stages (`for stage in
@@ -108,6 +116,8 @@ inductive Lbl
   | jobEv (e : Ev Nat)
   /-- `snd.send(inner)` at the end of the closure -/
   | send
+  /-- the environment looks at the systems' own completion signal (no dispatcher method) -/
+  | observe
 deriving Repr
 
 /-- `Data::inner()` can return: `Data` is `Inner` already, or the job's message is in the mailbox -/
@@ -115,6 +125,12 @@ def available : Data → Job → Bool
   | .inner, _ => true
   | .rx, .sent => true
   | .rx, _ => false
+
+/-- no system of the job is inside `run` and none is still to be started: the job has not been
+spawned, has sent, or has only its `send` left -/
+def Job.quiet : Job → Bool
+  | .running r => r.nullable
+  | _ => true
 
 /-- one transition: the new control state and the event it appends to the log, if any -/
 def step (P : APlan) (c : Ctl) : Lbl → Option (Ctl × Option AEv)
@@ -171,6 +187,12 @@ def step (P : APlan) (c : Ctl) : Lbl → Option (Ctl × Option AEv)
     match c.job with
     | .running r => if r.nullable then some ({ c with job := .sent }, none) else none
     | _ => none
+  | .observe =>
+    -- changes nothing: neither `Data` nor the mailbox is touched (in particular the message of
+    -- a job that finished unobserved stays where it is until the next `inner()` / `inner_noblock()`)
+    match c.caller with
+    | .ready => if c.job.quiet then some (c, some .quiet) else none
+    | _ => none
 
 def optList {α} : Option α → List α
   | none => []
@@ -212,6 +234,7 @@ def feed (P : APlan) (c : Ctl) (o : AEv) : Option Ctl :=
       | .called .wait => tryStep P (tryStep P c .send) .acquire
       | _ => c
     visStep P c (.tlEv e) o
+  | .quiet => visStep P c .observe o
   | .sys _ _ e =>
     match visStep P c (.jobEv e) o with
     | some c' => some c'
